@@ -18,6 +18,7 @@ import OAP.Proofs.StreamComplete
 import OAP.Proofs.Reading
 import OAP.Props.C02
 import OAP.Proofs.GenFuncsStream
+import OAP.Proofs.GenFuncsUnpack
 namespace OAP.C03
 open OAP OAP.Frame
 
@@ -615,8 +616,58 @@ example :
        g.type == 3 && g.cmdCode == 7 && g.bodyLength == 0x010203 && g.beginUnpack && g.isUnpacked && rb'.isEmpty && done && err.isNone
      | _ => false) = true := GenFuncs.v1_unpack_wrapped_example
 
-/-- both streaming header decoders were inside the translatable subset in this run -/
+/-- both streaming header decoders and both protocol-level streaming decoders were inside the translatable subset in this run -/
 theorem functions_translated :
-    "v1.Header.Unpack" ∈ Gen.Fn.translated ∧ "v2.Header.Unpack" ∈ Gen.Fn.translated := by decide
+    "v1.Header.Unpack" ∈ Gen.Fn.translated ∧ "v2.Header.Unpack" ∈ Gen.Fn.translated ∧
+    "v1.protocolV1.Unpack" ∈ Gen.Fn.translated ∧ "v2.protocolV2.Unpack" ∈ Gen.Fn.translated := by decide
+
+/-! ### the protocol-level streaming decoder is generated, too
+
+`func (p *protocolV1) Unpack(ctx, buf) (packet, done, err)` (go/v1/v1.go) is translated on every run (`Gen.Fn.v1_protocolV1_Unpack`): the header
+slot of the connection context is the threaded variable `pend : Option V1Header`, `header.Unpack(ctx, buf)` is the call of the translated
+header decoder, `buf.Read` is the ring model's `Ring.read`, the deferred conditional release runs at every return. -/
+
+/-- the translated `(*protocolV1).Unpack` is `Frame.unpackRing .v1` — the function layers 2 and 3 above are about — for every oracle, codec,
+parked header (`none`: nothing parked) and every well-formed ring (`Ring.WF`, kept by every ring operation): the same parked header and the
+same ring afterwards, the same packet / `done` / error, a panic exactly where the model panics (`GenFuncs.sout` puts the model's outcome
+record into the shape of the generated result; `GenFuncs.gout` converts the generated structs and drops the packet next to an error) -/
+theorem protocol_unpack_is_generated (gz : GzOracle) (codec : UInt8) (pend : Option Gen.Fn.V1Header) (rb : Ring) (wf : rb.WF) :
+    (Gen.Fn.v1_protocolV1_Unpack gz codec pend rb).map GenFuncs.gout
+      = GenFuncs.sout (unpackRing .v1 gz codec (pend.map GenFuncs.v1M) rb) :=
+  GenFuncs.v1_protocol_unpack_gen gz codec pend rb wf
+
+/-- the same read from the model's side: every model header without a metadata length (v1 has none) parked -/
+theorem protocol_unpack_is_generated' (gz : GzOracle) (codec : UInt8) (pend : Option Header) (rb : Ring) (wf : rb.WF)
+    (hm : ∀ h, pend = some h → h.metadataLength = 0) :
+    (Gen.Fn.v1_protocolV1_Unpack gz codec (pend.map GenFuncs.v1G) rb).map GenFuncs.gout = GenFuncs.sout (unpackRing .v1 gz codec pend rb) :=
+  GenFuncs.v1_protocol_unpack_gen' gz codec pend rb wf hm
+
+/-- `func (p *protocolV2) Unpack` as translated is `Frame.unpackRing .v2` followed by the key lower-casing of `Metadata.UnmarshalValues`
+(`lower` = strings.ToLower; the hand-written streaming model keeps the raw pairs, exactly as in the one-shot case C01.unpackBytes_is_generated):
+every oracle, codec, parked header, every well-formed ring -/
+theorem protocol_unpack_is_generated_v2 (gz : GzOracle) (lower : Bytes → Bytes) (codec : UInt8) (pend : Option Gen.Fn.V2Header) (rb : Ring)
+    (wf : rb.WF) :
+    (Gen.Fn.v2_protocolV2_Unpack gz lower codec pend rb).map GenFuncs.gout2
+      = GenFuncs.soutL lower (unpackRing .v2 gz codec (pend.map GenFuncs.v2M) rb) :=
+  GenFuncs.v2_protocol_unpack_gen gz lower codec pend rb wf
+
+/-- … and with keys that are lower case already (`lower` the identity) exactly the model -/
+theorem protocol_unpack_is_generated_v2_id (gz : GzOracle) (codec : UInt8) (pend : Option Gen.Fn.V2Header) (rb : Ring) (wf : rb.WF) :
+    (Gen.Fn.v2_protocolV2_Unpack gz id codec pend rb).map GenFuncs.gout2
+      = GenFuncs.sout (unpackRing .v2 gz codec (pend.map GenFuncs.v2M) rb) :=
+  GenFuncs.v2_protocol_unpack_gen_id gz codec pend rb wf
+
+/-- non-vacuity: a frame delivered in two pieces — the first call parks the unpacked header and asks for more, the second call, given the
+parked header, returns the packet and releases it; an unknown type returns the error with the header released -/
+example :
+    (match Gen.Fn.v1_protocolV1_Unpack ⟨fun _ => .err "none", fun _ => none⟩ 0 none
+        { buf := [0x03, 0x07, 0, 0, 2, 0, 0, 0], size := 8, r := 0, w := 5, isEmpty := false } with
+     | .ok (some g, rb', none, false, none) =>
+       g.isUnpacked && g.bodyLength == 2 && rb'.isEmpty &&
+       (match Gen.Fn.v1_protocolV1_Unpack ⟨fun _ => .err "none", fun _ => none⟩ 0 (some g)
+          { buf := [0x03, 0x07, 0, 0, 2, 0xAA, 0xBB, 0], size := 8, r := 5, w := 7, isEmpty := false } with
+        | .ok (none, rb'', some p, true, none) => p.body == [0xAA, 0xBB] && p.metadata.cmdCode == 7 && rb''.isEmpty
+        | _ => false)
+     | _ => false) = true := GenFuncs.v1_unpack_resume_example
 
 end OAP.C03
